@@ -32,7 +32,7 @@ def ResOK (entry pc pcEnd : Nat) (tail : Bool) (rs vs : List (Val F)) (fr : List
 
 def SimAt (fuel : Nat) (e : Expr F) : Prop :=
   ∀ cur st res st', evalFS fo host bodies cur fuel e st = .ok (res, st') →
-  ∀ root pc rs vs fr entry, Located P root cur pc e → wfC e = true → (root = cur ∨ enFree e = true) →
+  ∀ root pc rs vs fr entry, Located P root cur pc e → wfC e = true →
   P.jumps[cur]? = some entry → entry < P.instrs.size → pc + len e < P.instrs.size →
   ResOK fo host P entry pc (pc + len e) (tailR e) rs vs fr st res st'
 
@@ -41,7 +41,6 @@ def SimE (fuel : Nat) : Prop := ∀ e, SimAt fo host P bodies fuel e
 def SimL (fuel : Nat) : Prop :=
   ∀ cur items st acc r st', evalListS fo host bodies cur fuel items st acc = .ok (r, st') →
   ∀ root pc rs0 vs fr entry, LocatedList P root cur pc items → wfCList items = true →
-  (root = cur ∨ enFreeList items = true) →
   P.jumps[cur]? = some entry → entry < P.instrs.size → pc + lenList items < P.instrs.size →
   match r with
   | .inl vals => ∃ nv, vals = acc.reverse ++ nv ∧ nv.length = items.length ∧
@@ -52,7 +51,7 @@ def SimL (fuel : Nat) : Prop :=
 def SimC (fuel : Nat) : Prop :=
   ∀ cur arms fe st res st', evalChainS fo host bodies cur fuel arms (some fe) st = .ok (res, st') →
   ∀ root pc rs vs fr entry join, LocatedArms P root cur join pc arms → Located P root cur (pc + lenArms arms) fe →
-  wfCArms arms = true → wfC fe = true → (root = cur ∨ (enFreeArms arms && enFree fe) = true) →
+  wfCArms arms = true → wfC fe = true →
   (arms ≠ [] → P.jumps[join]? = some (pc + lenArms arms + len fe) ∧ join ≠ cur) →
   P.jumps[cur]? = some entry → entry < P.instrs.size → pc + lenArms arms + len fe < P.instrs.size →
   ResOK fo host P entry pc (pc + lenArms arms + len fe) (tailRArms arms && tailR fe) rs vs fr st res st'
@@ -61,7 +60,7 @@ def SimC (fuel : Nat) : Prop :=
 def SimCN (fuel : Nat) : Prop :=
   ∀ cur arms st res st', evalChainS fo host bodies cur fuel arms none st = .ok (res, st') →
   ∀ root pc rs vs fr entry join, LocatedArms P root cur join pc arms →
-  wfCArms arms = true → (root = cur ∨ enFreeArms arms = true) →
+  wfCArms arms = true →
   (arms ≠ [] → P.jumps[join]? = some (pc + lenArms arms) ∧ join ≠ cur) →
   P.jumps[cur]? = some entry → entry < P.instrs.size → pc + lenArms arms < P.instrs.size →
   ResOK fo host P entry pc (pc + lenArms arms) (tailRArms arms) rs vs fr st res st'
@@ -126,7 +125,7 @@ theorem evalF_inp_trace_val {cur fuel : Nat} {x : Expr F} {st st1 : St F} {v : V
 /-! ### constructs without control transfer -/
 
 theorem sim_lit {fuel : Nat} (v : Val F) : SimAt fo host P bodies (fuel + 1) (.lit v) := by
-  intro cur st res st' h root pc rs vs fr entry hloc _ _ _ _ hlt
+  intro cur st res st' h root pc rs vs fr entry hloc _ _ _ hlt
   simp only [evalFS, Out.ok.injEq, Prod.mk.injEq] at h
   obtain ⟨rfl, rfl⟩ := h
   simp only [Located] at hloc
@@ -135,7 +134,7 @@ theorem sim_lit {fuel : Nat} (v : Val F) : SimAt fo host P bodies (fuel + 1) (.l
   exact .single (step_put hi hc hlt)
 
 theorem sim_input {fuel : Nat} : SimAt fo host P bodies (fuel + 1) (.input) := by
-  intro cur st res st' h root pc rs vs fr entry hloc _ _ _ _ hlt
+  intro cur st res st' h root pc rs vs fr entry hloc _ _ _ hlt
   simp only [evalFS, Out.ok.injEq, Prod.mk.injEq] at h
   obtain ⟨rfl, rfl⟩ := h
   simp only [Located] at hloc
@@ -143,7 +142,7 @@ theorem sim_input {fuel : Nat} : SimAt fo host P bodies (fuel + 1) (.input) := b
   exact .single (step_putValue hloc hlt)
 
 theorem sim_nested {fuel : Nat} (id : Nat) : SimAt fo host P bodies (fuel + 1) (.nested id) := by
-  intro cur st res st' h root pc rs vs fr entry hloc _ _ _ _ hlt
+  intro cur st res st' h root pc rs vs fr entry hloc _ _ _ hlt
   simp only [evalFS, Out.ok.injEq, Prod.mk.injEq] at h
   obtain ⟨rfl, rfl⟩ := h
   simp only [Located] at hloc
@@ -152,18 +151,16 @@ theorem sim_nested {fuel : Nat} (id : Nat) : SimAt fo host P bodies (fuel + 1) (
   exact .single (step_put hi hc hlt)
 
 theorem sim_emptyNested {fuel : Nat} : SimAt fo host P bodies (fuel + 1) (.emptyNested) := by
-  intro cur st res st' h root pc rs vs fr entry hloc _ hen _ _ hlt
+  intro cur st res st' h root pc rs vs fr entry hloc _ _ _ hlt
   simp only [evalFS, Out.ok.injEq, Prod.mk.injEq] at h
   obtain ⟨rfl, rfl⟩ := h
   simp only [Located] at hloc
   obtain ⟨k, hi, hc⟩ := hloc
   simp only [len] at hlt ⊢
-  have hrc : root = cur := by simpa [enFree] using hen
-  subst hrc
   exact .single (step_put hi hc hlt)
 
 theorem sim_ident {fuel : Nat} (sym : Nat) : SimAt fo host P bodies (fuel + 1) (.ident sym) := by
-  intro cur st res st' h root pc rs vs fr entry hloc _ _ _ _ hlt
+  intro cur st res st' h root pc rs vs fr entry hloc _ _ _ hlt
   simp only [evalFS] at h
   simp only [Located] at hloc
   obtain ⟨k, hi, hc⟩ := hloc
